@@ -291,6 +291,8 @@ def cvc5_check(smt2, timeout_ms=20000):
 def model_value(m, t):
     """python float / int of a term under a model (algebraic numbers approximated)."""
     v = m.eval(t, model_completion=True)
+    if z3.is_int_value(v):
+        return v.as_long()
     if z3.is_rational_value(v):
         n, d = v.numerator_as_long(), v.denominator_as_long()
         return n if d == 1 else n / d
